@@ -15,6 +15,8 @@ from pyvc.runner import ContractTask
 from pyvc.values import *   # noqa
 from pyvc.interp import int_to_str
 from . import c02
+from .common import register_classes
+from .transit_lib import BodyLemma
 
 PROP = "C03"
 
@@ -106,6 +108,192 @@ CONTRACTS = [
 ]
 
 
+# ---------------------------------------------------------------------------------------------------------------
+# The hops between the functions above, each verified THROUGH THE REAL TRANSITION TABLE of its machine (state set
+# first, then the row's outputs in order, real bodies; an input without a row raises NoTransition as Automat does).
+# A row that loses / gains an output, an output attached to the wrong state, or a body that passes something else
+# on fails here.  The Mailbox side of add_message / rx_message_ours is C09's (same technique), run here too.
+BOSS = "wormhole/_boss.py:Boss."
+BOSS_FIELDS = {"__state": "state", "_next_tx_phase": "int", "_S": "obj[ISend]", "_rx_phases": "dict[int,bytes]",
+               "_next_rx_phase": "int", "_W": "obj[IWormhole]"}
+B_OPEN = "'S0_empty', 'S1_lonely', 'S2_happy'"
+B_DONE = "'S3_closing', 'S4_closed'"
+RX_KEPT = ("self._next_rx_phase == old(self._next_rx_phase) and forall(lambda k: (k in self._rx_phases) == "
+           "(k in old(self._rx_phases)) and implies(k in self._rx_phases, self._rx_phases[k] == old(self._rx_phases)[k]))")
+STATE_KEPT = ("state-kept", "state_index(self) == old(state_index(self))")
+
+SEND_FIELDS = {"__state": "state", "_queue": QS, "_key": "bytes", "_side": "str", "_M": "obj[IMailbox]"}
+ORDER_FIELDS = {"__state": "state", "_queue": QO, "_R": "obj[IReceive]", "_K": "obj[IKey]"}
+RECV_FIELDS = {"__state": "state", "_key": "bytes", "_side": "str", "_S": "obj[ISend]", "_B": "obj[IBoss]"}
+MB_FIELDS = {"__state": "state", "_pending_outbound": "dict[str,bytes]", "_mailbox": "opt[str]", "_mood": "opt[str]",
+             "_side": "str", "_processed": "set[str]",
+             "_RC": "obj[IRendezvousConnector]", "_N": "obj[INameplate]", "_O": "obj[IOrder]", "_T": "obj[ITerminator]"}
+PROCESSED_KEPT = "forall(lambda p: (p in self._processed) == (p in old(self._processed)), 'str')"
+
+MACHINE_CONTRACTS = [
+    # ------------------------------------------------------------------ API -> numbering
+    Contract(BOSS + "send", props=[PROP], params={"plaintext": "bytes"}, self_fields=BOSS_FIELDS,
+             requires=["self._next_tx_phase >= 0"], modifies=["__state", "_next_tx_phase"],
+             ensures=[("one-number-per-message-until-closing",
+                       f"self._next_tx_phase == old(self._next_tx_phase) + ite(old(in_state(self, {B_OPEN})), 1, 0)"),
+                      STATE_KEPT],
+             internal_ensures=[
+                 ("numbered-and-handed-to-Send-once-unchanged",
+                  f"implies(old(in_state(self, {B_OPEN})), bcall_names() == ['send'] and "
+                  "bcall_arg('send', 0, 0) == int_str(old(self._next_tx_phase)) and bcall_arg('send', 0, 1) == plaintext)"),
+                 ("nothing-sent-once-closing", f"implies(old(in_state(self, {B_DONE})), len(bcall_names()) == 0)")],
+             note="Boss.send in every state: S_send (by its contract) runs exactly in S0/S1/S2; after close() started the "
+                  "message is dropped and no number is used up"),
+    Contract(BOSS + "_got_phase", props=[PROP], params={"phase": "int", "plaintext": "bytes"}, self_fields=BOSS_FIELDS,
+             requires=["self._next_rx_phase not in self._rx_phases"],
+             raises_exactly={"NoTransition": "in_state(self, 'S0_empty', 'S1_lonely')"},
+             modifies=["__state", "_rx_phases", "_next_rx_phase"],
+             ensures=[("dropped-once-closing", f"implies(old(in_state(self, {B_DONE})), {RX_KEPT})"), STATE_KEPT],
+             internal_ensures=[
+                 ("reorder-buffer-runs-exactly-when-happy-with-this-phase-and-body",
+                  "n_calls('Boss.W_received') == ite(old(in_state(self, 'S2_happy')), 1, 0) and "
+                  "implies(old(in_state(self, 'S2_happy')), call_arg('Boss.W_received', 0, 1) == phase and "
+                  "call_arg('Boss.W_received', 0, 2) == plaintext)"),
+                 ("nothing-else-happens", "len(bcall_names()) == 0")],
+             ensures_raise={"NoTransition": [("nothing-happened", "n_calls('Boss.W_received') == 0 and len(bcall_names()) == 0")]},
+             note="W_received is applied through its contract (proved on the real loop in C02's module)"),
+    BodyLemma("lemma:numeric_phase_reaches_the_reorder_buffer_once_unchanged", BOSS + "got_message", props=[PROP],
+              params={"phase": "str", "plaintext": "bytes"}, self_fields=BOSS_FIELDS,
+              requires=["is_numeric_phase(phase)", "self._next_rx_phase not in self._rx_phases",
+                        "in_state(self, 'S2_happy', 'S3_closing', 'S4_closed')"],
+              modifies=["__state", "_rx_phases", "_next_rx_phase"],
+              ensures=[("exactly-one-W_received-with-the-decimal-value-and-the-same-plaintext-when-happy",
+                        "n_calls('Boss.W_received') == ite(old(in_state(self, 'S2_happy')), 1, 0) and "
+                        "implies(old(in_state(self, 'S2_happy')), call_arg('Boss.W_received', 0, 1) == decimal_value(phase) and "
+                        "call_arg('Boss.W_received', 0, 2) == plaintext)"),
+                       ("dropped-once-closing", f"implies(old(in_state(self, {B_DONE})), {RX_KEPT})"),
+                       ("nothing-else-happens", "len(bcall_names()) == 0")],
+              note="the real chain Boss.got_message -> _got_phase (real transition table) -> W_received (contract)"),
+    # ------------------------------------------------------------------ Send: queue before the key, deliver after
+    Contract("wormhole/_send.py:Send.send", props=[PROP], params={"phase": "str", "plaintext": "bytes"},
+             self_fields=SEND_FIELDS, modifies=["__state", "_queue"],
+             requires=["implies(in_state(self, 'S1_verified_key'), len(self._key) > 0)", "is_ascii(self._side)", "is_ascii(phase)"],
+             ensures=[("queued-at-the-end-before-the-key", "implies(old(in_state(self, 'S0_no_key')), "
+                                                          "self._queue == old(self._queue) + [(phase, plaintext)])"),
+                      ("queue-untouched-after-the-key", "implies(old(in_state(self, 'S1_verified_key')), "
+                                                        "self._queue == old(self._queue))"),
+                      STATE_KEPT],
+             internal_ensures=[
+                 ("nothing-sent-before-the-key", "implies(old(in_state(self, 'S0_no_key')), len(bcall_names()) == 0)"),
+                 ("sent-at-once-after-the-key-sealed-under-its-own-label",
+                  "implies(old(in_state(self, 'S1_verified_key')), bcall_names() == ['add_message'] and "
+                  "bcall_arg('add_message', 0, 0) == phase and "
+                  "sealed(bcall_arg('add_message', 0, 1), phase_key(self._key, self._side, phase), plaintext))")],
+             note="real bodies of queue / deliver / _encrypt_and_send through the table; key functions by contract"),
+    Contract("wormhole/_send.py:Send.got_verified_key", props=[PROP], params={"key": "bytes"},
+             self_fields=SEND_FIELDS, modifies=["__state", "_queue", "_key"],
+             requires=["len(key) > 0", "is_ascii(self._side)",
+                       "forall(lambda i: implies(0 <= i and i < len(self._queue), is_ascii(self._queue[i][0])))"],
+             raises_exactly={"NoTransition": "in_state(self, 'S1_verified_key')"},
+             ensures=[("key-recorded-and-queue-flushed", "self._key == key and len(self._queue) == 0"),
+                      ("now-delivering-directly", "in_state(self, 'S1_verified_key')")],
+             internal_ensures=[("flushed-by-drain-after-the-key-was-recorded",
+                                "n_calls('Send.drain') == 1 and call_arg('Send.drain', 0, 0)._key == key")],
+             note="record_key runs before drain (row order), so drain's contract (every queued message once, in order, each "
+                  "under its own label, proved on the real loop) is applied with the verified key"),
+    # ------------------------------------------------------------------ Mailbox: dedup on the way in
+    Contract("wormhole/_mailbox.py:Mailbox.rx_message_theirs", props=[PROP],
+             params={"side": "str", "phase": "str", "body": "bytes"}, self_fields=MB_FIELDS,
+             modifies=["__state", "_processed"],
+             raises_exactly={"NoTransition": "in_state(self, 'S0A', 'S0B', 'S1A', 'S2A', 'S3A')"},
+             ensures=[("phase-remembered-while-open",
+                       "implies(old(in_state(self, 'S2B')), forall(lambda p: (p in self._processed) == "
+                       "(p in old(self._processed) or p == phase), 'str'))"),
+                      ("untouched-once-closing", f"implies(not old(in_state(self, 'S2B')), {PROCESSED_KEPT})"), STATE_KEPT],
+             internal_ensures=[
+                 ("new-phase-forwarded-once-unchanged",
+                  "implies(old(in_state(self, 'S2B')) and phase not in old(self._processed), "
+                  "bcall_names() == ['release', 'got_message'] and bcall_arg('got_message', 0, 0) == side and "
+                  "bcall_arg('got_message', 0, 1) == phase and bcall_arg('got_message', 0, 2) == body)"),
+                 ("seen-phase-not-forwarded-again",
+                  "implies(old(in_state(self, 'S2B')) and phase in old(self._processed), bcall_names() == ['release'])"),
+                 ("nothing-forwarded-once-closing", "implies(not old(in_state(self, 'S2B')), len(bcall_names()) == 0)")],
+             ensures_raise={"NoTransition": [("nothing-forwarded", "len(bcall_names()) == 0")]},
+             note="exactly once: a phase string reaches Order at most once per Mailbox, whatever the server repeats"),
+    # ------------------------------------------------------------------ Order: hold back until the PAKE, then FIFO
+    Contract("wormhole/_order.py:Order.got_message", props=[PROP], params={"side": "str", "phase": "str", "body": "bytes"},
+             self_fields=ORDER_FIELDS, modifies=["__state", "_queue"],
+             raises_exactly={"NoTransition": "phase == 'pake' and in_state(self, 'S1_yes_pake')"},
+             ensures=[("held-back-in-arrival-order-before-the-pake",
+                       "implies(phase != 'pake' and old(in_state(self, 'S0_no_pake')), "
+                       "self._queue == old(self._queue) + [(side, phase, body)] and in_state(self, 'S0_no_pake'))"),
+                      ("queue-untouched-after-the-pake",
+                       "implies(phase != 'pake' and old(in_state(self, 'S1_yes_pake')), self._queue == old(self._queue) and "
+                       "in_state(self, 'S1_yes_pake'))"),
+                      ("pake-flushes-the-queue", "implies(phase == 'pake', len(self._queue) == 0 and in_state(self, 'S1_yes_pake'))")],
+             internal_ensures=[
+                 ("nothing-forwarded-before-the-pake",
+                  "implies(phase != 'pake' and old(in_state(self, 'S0_no_pake')), len(bcall_names()) == 0)"),
+                 ("forwarded-once-unchanged-after-the-pake",
+                  "implies(phase != 'pake' and old(in_state(self, 'S1_yes_pake')), bcall_names() == ['got_message'] and "
+                  "bcall_arg('got_message', 0, 0) == side and bcall_arg('got_message', 0, 1) == phase and "
+                  "bcall_arg('got_message', 0, 2) == body)"),
+                 ("pake-goes-to-Key-then-the-held-back-messages-are-drained",
+                  "implies(phase == 'pake', bcall_names() == ['got_pake'] and bcall_arg('got_pake', 0, 0) == body and "
+                  "n_calls('Order.drain') == 1)")],
+             ensures_raise={"NoTransition": [("nothing-forwarded", "len(bcall_names()) == 0")]},
+             note="drain is applied through its contract (every held-back message forwarded once, in arrival order, proved on "
+                  "the real loop); a second pake cannot arrive (the Mailbox forwards each phase string once)"),
+    # ------------------------------------------------------------------ Receive: good message -> Boss, unchanged
+    Contract("wormhole/_receive.py:Receive.got_message_good", props=[PROP], params={"phase": "str", "plaintext": "bytes"},
+             self_fields=RECV_FIELDS, modifies=["__state"],
+             requires=["len(self._key) == 32"],
+             raises_exactly={"NoTransition": "in_state(self, 'S0_unknown_key')"},
+             ensures=[("verified-unless-scared", "in_state(self, 'S2_verified_key') == (not old(in_state(self, 'S3_scared')))")],
+             internal_ensures=[
+                 ("handed-to-Boss-exactly-once-unchanged-unless-scared",
+                  "bcalls('got_message') == ite(old(in_state(self, 'S3_scared')), 0, 1) and "
+                  "implies(not old(in_state(self, 'S3_scared')), bcall_arg('got_message', 0, 0) == phase and "
+                  "bcall_arg('got_message', 0, 1) == plaintext and bcall_names()[len(bcall_names()) - 1] == 'got_message')"),
+                 ("first-good-message-makes-the-Boss-happy-before-it-is-delivered",
+                  "implies(old(in_state(self, 'S1_unverified_key')), "
+                  "bcall_names() == ['got_verified_key', 'happy', 'got_verifier', 'got_message'] and "
+                  "bcall_arg('got_verified_key', 0, 0) == self._key)"),
+                 ("later-good-messages-only-delivered", "implies(old(in_state(self, 'S2_verified_key')), bcall_names() == ['got_message'])"),
+                 ("scared-delivers-nothing", "implies(old(in_state(self, 'S3_scared')), len(bcall_names()) == 0)")],
+             ensures_raise={"NoTransition": [("nothing-delivered", "len(bcall_names()) == 0")]},
+             note="after a bad message (S3_scared) nothing is ever delivered again; `happy` precedes the first delivery, so the "
+                  "Boss is in S2_happy (or closing) when _got_phase arrives"),
+    # ------------------------------------------------------------------ the API ends
+    Contract("wormhole/wormhole.py:_DeferredWormhole.send_message", props=[PROP], params={"plaintext": "bytes"},
+             self_fields={"_boss": "obj[IBoss]"}, effects=[("send", ["plaintext"])]),
+    Contract("wormhole/wormhole.py:_DelegatedWormhole.send_message", props=[PROP], params={"plaintext": "bytes"},
+             self_fields={"_boss": "obj[IBoss]"}, effects=[("send", ["plaintext"])]),
+    Contract("wormhole/wormhole.py:_DelegatedWormhole.received", props=[PROP], params={"plaintext": "bytes"},
+             self_fields={"_delegate": "obj[Delegate]"}, effects=[("wormhole_got_message", ["plaintext"])],
+             note="delegated mode: each W.received becomes exactly one wormhole_got_message with the same bytes, synchronously "
+                  "(so in the order of the reorder buffer)"),
+]
+
+
+def regf_machine():
+    """registry for the contracts verified through the real transition tables: the tiny outputs (Send.queue/deliver,
+    Order.queue/deliver, Mailbox.N_release_and_accept, ...) are executed, the loops (Send.drain, Order.drain,
+    Boss.W_received) and the key functions are used through their contracts"""
+    from pyvc.automat import AutomatSupport
+    reg = regf(exclude=("wormhole/_send.py:Send.queue", "wormhole/_send.py:Send.deliver", "wormhole/_order.py:Order.queue",
+                        "wormhole/_order.py:Order.deliver", "wormhole/_mailbox.py:Mailbox.N_release_and_accept",
+                        "wormhole/_mailbox.py:Mailbox.queue", "wormhole/_mailbox.py:Mailbox.dequeue",
+                        "wormhole/_mailbox.py:Mailbox.RC_tx_add", "wormhole/_boss.py:Boss.got_message",
+                        "wormhole/_receive.py:Receive.got_message", "wormhole/_mailbox.py:Mailbox.rx_message"))
+    register_classes(reg, ["wormhole/_boss.py", "wormhole/_send.py", "wormhole/_order.py", "wormhole/_receive.py",
+                           "wormhole/_mailbox.py", "wormhole/wormhole.py"])
+    reg.input_as_boundary = False
+    reg.automat = AutomatSupport()
+    reg.automat.notransition_raises = True
+    for c in MACHINE_CONTRACTS:
+        reg.contracts[c.target] = c
+    sf = reg.spec_funcs
+    sf["state_index"] = lambda it, o: VInt(it.force(o).fields["__state"].z)
+    sf["n_calls"] = lambda it, suffix: VInt(sum(1 for e in it.ctx.trace if e[0] == "call" and e[1][0].endswith(it.concrete(suffix))))
+    return reg
+
+
 def regf(exclude=()):
     reg = c02.regf(exclude=("wormhole/_send.py:Send._encrypt_and_send",) + tuple(exclude))
     for c in CONTRACTS:
@@ -126,7 +314,8 @@ def tasks():
     obs = [t for t in c18._f_tasks() if getattr(t, "contract", None) is not None and
            ("SequenceObserver." in t.contract.target or "EventualQueue." in t.contract.target or
             t.contract.target.endswith(("_DeferredWormhole.received", "_DeferredWormhole.get_message")))]
-    return mine + shared + obs
+    machine = [ContractTask(c, regf_machine) for c in MACHINE_CONTRACTS]
+    return mine + machine + shared + obs
 
 
 TRUSTED = c02.TRUSTED
